@@ -22,6 +22,8 @@ DOCS_TRIGGER = [
     ("t_defaults", "the value, defaults to 3"),
     ("t_int", "an integer count"),
     ("t_str", "string name of it"),
+    ("t_optional", "Optional timeout in seconds"),
+    ("t_optional_paren", "(Optional) timeout in seconds."),
 ]
 
 JSON_TYPES = {"int", "float", "str", "bool", "dict", "list", "Optional[int]", "Optional[float]", "Optional[str]", "Optional[bool]", "Literal['a', 'b']", "Literal['a', 'b', 'c']"}
